@@ -10,17 +10,17 @@ from pytoniq_core.boc import Builder, Cell, Slice
 PROPERTY = 'C03'
 
 
-def _root_for(ctx, shape, twins=(), exotic=None, m=1):
+def _root_for(ctx, shape, twins=(), exotic=None, m=1, lens=None):
     if exotic:
         from harness.C02 import SHAPES
         sc = warm(SHAPES[exotic](ctx, m))
         return sc, to_real(sc, via='ctor')
-    cells = build_dag(ctx, shape, twins=twins)
+    cells = build_dag(ctx, shape, lens=lens, twins=twins)
     return cells[0], to_real(cells[0], via='builder')
 
 
-def h_roundtrip(ctx, shape=None, opts=None, entry='cell', form='bytes', twins=(), exotic=None, m=1, twin=None):
-    sc, root = _root_for(ctx, shape, twins, exotic, m)
+def h_roundtrip(ctx, shape=None, opts=None, entry='cell', form='bytes', twins=(), exotic=None, m=1, twin=None, lens=None):
+    sc, root = _root_for(ctx, shape, twins, exotic, m, lens)
     install_crc_stub(ctx)
     boc = root.to_boc(**opts)
     if twin == 'drop_last':
@@ -136,6 +136,10 @@ def instances(tier, seed):
             for d in ([[1, 2], [2], []], [[]], fam['diamond2']):
                 for o in (OPTIONS[0], OPTIONS[5]) if tier == 'quick' else OPTIONS:
                     yield 'h_roundtrip', dict(shape=d, opts=o, entry=entry, form=form)
+    # data lengths at the byte and capacity boundaries (0, 7, 8, 9, 1015..1023 bits)
+    for lens in ([1023, 1017], [1016, 1022], [1018, 1019], [1020, 1021], [1015, 0], [7, 8], [9, 1]):
+        for o, entry, form in ((OPTIONS[0], 'cell', 'bytes'), (OPTIONS[5], 'slice', 'hex'), (OPTIONS[3], 'builder', 'base64')):
+            yield 'h_roundtrip', dict(shape=[[1], []], opts=o, lens=lens, entry=entry, form=form)
     # exotic cells
     for ex, m in (('mproof_ord_pruned', 1), ('mproof_ord_pruned', 3), ('mupd', 1), ('library', 1), ('ord_over_library', 1),
                   ('ord_over_two_pruned', 5), ('mproof_mproof', 2)):
@@ -156,6 +160,7 @@ INSTANCE_TIMEOUT = {'quick': 200, 'thorough': 1500}
 BOUNDS = {
     'DAG shapes': 'every rooted DAG with <= 3 cells (out-degree <= 3) and with 4 cells (out-degree <= 2); families: chains to depth 8, '
                   'sharing diamonds, fans, repeated references; pairs of cells that may be equal; 7 exotic trees',
+    'data lengths': 'small lengths in the DAG enumeration; 0, 1, 7, 8, 9 and 1015..1023 bits on a two-cell chain',
     'contents': 'all data bits of every cell symbolic (concrete distinct filler in the 255..257 / 65535..65537-cell cases and the deep chains)',
     'options': 'the 6 valid combinations (quick: two per small DAG, all six on the families)',
     'encodings/entry points': 'bytes, hex text, base64 text x Cell/Slice/Builder.one_from_boc',
